@@ -78,6 +78,10 @@ def op_ctx(has_try):
                 post=[(r'\bVF_THE_OP\b', 'self')] + throws(has_try) + [(r'\bself->', 'VF_ALIVE(self)->')])
 
 
+TOKEN_SIG = (r'(?s)return std::move\(cpo\)\(std::as_const\(r\.op_\.receiver_\)\);\s*\}\s*'
+             r'((?:friend unstoppable_token\s+tag_invoke\(tag_t<get_stop_token>, const type&\) noexcept \{\s*return \{\};\s*\})?)')
+TOKEN_CTX = dict(pre=[(r'(?s)^friend unstoppable_token.*$', 'TOKEN_UNSTOPPABLE'), (r'^$', 'TOKEN_OF_CONSUMER')])
+
 SPEC = dict(
     properties=['C13', 'C02'],
     ctx={},
@@ -101,6 +105,10 @@ SPEC = dict(
         'errc_set_done': dict(file=H, sig=r'void set_done\(\) noexcept', within=ERRC, ctx=rcv_ctx('errc_rcv', ['op_', 'ex_'], False)),
         'donec_set_error': dict(file=H, sig=CE_SIG % '(?:&&|&)?' + r' && noexcept', within=DONEC, ctx=rcv_ctx('donec_rcv', ['op_'], False)),
         'donec_set_done': dict(file=H, sig=r'void set_done\(\) && noexcept', within=DONEC, ctx=rcv_ctx('donec_rcv', ['op_'], False)),
+        # the stop token the cleanup receivers answer get_stop_token with: their own overload (unstoppable_token), or - when there is none - what the
+        # generic query forwarding in front of it yields, i.e. the consumer's token (optional group: '' when the overload is absent)
+        'errc_token': dict(file=H, kind='expr', sig=TOKEN_SIG, within=ERRC, ctx=TOKEN_CTX),
+        'donec_token': dict(file=H, kind='expr', sig=TOKEN_SIG, within=DONEC, ctx=TOKEN_CTX),
     },
     closed_world=[
         dict(file=H, members=['next_', 'errorCleanup_', 'doneCleanup_', 'ex_', 'state_'], within=r'namespace _reduce \{',
@@ -121,6 +129,7 @@ SPEC = dict(
         dict(name='done_cleanup_set_error', harness='h_donec_set_error', enforce='donec_rcv_set_error'),
         dict(name='lemma_rs_lifecycle', harness='lemma_rs_lifecycle', mode='lemma'),
         dict(name='lemma_rs_init', harness='lemma_rs_init', mode='lemma'),
+        dict(name='lemma_rs_cleanup_token', harness='lemma_rs_cleanup_token', mode='lemma'),
     ],
     assumptions=[
         'stream concept, children: each next(stream) / cleanup(stream) operation completes exactly once, only after it was started, through exactly one of its receiver\'s set_value / set_error / set_done (next) or set_done / set_error (cleanup); it may do so inline inside start(); it does not touch its own operation state after calling its receiver',
@@ -139,6 +148,6 @@ SPEC = dict(
            'the stream / operation arguments of connect() inside the activate_union_member_with lambdas: the slot, WHICH stream operation (next / cleanup) and WHICH receiver type (and the parked error) are kept',
            'UNIFEX_TRY / UNIFEX_CATCH -> block-scoped VF_IN_TRY + goto vf_catch at the may-throw stubs (reducer, connect)',
            'reference member op_ -> pointer (`auto& op = op_;` -> `struct rs_op* op = op_;`)',
-           'receiver queries (tag_invoke forwarding; the cleanup receivers\' unstoppable_token), visit_continuations, the sender type, its connect and the reduce_stream CPO',
+           'receiver queries (tag_invoke forwarding; the cleanup receivers\' get_stop_token overload IS read: lemma_rs_cleanup_token), visit_continuations, the sender type, its connect and the reduce_stream CPO',
            'constructor mem-initialisers (stream_, state_, reducer_, receiver_ copies: an exception there propagates out of connect())'],
 )
